@@ -40,8 +40,11 @@ AllSpellable(iv, up) ==
 (* ------------------------------ concatenation --------------------------- *)
 \* fragments = consecutive groups of lines; ends[i] = stage of the last line of fragment i.  The document is the import of the
 \* joined lines; pair i = (0 or measures before the fragment + 1, measures up to the end of the fragment)
-MeasuresThrough(st) == Cardinality({j \in 1..Len(mstarts) : mstarts[j] <= st})
-ConcatPairs(ends) == [i \in 1..Len(ends) |-> <<(IF i = 1 THEN 0 ELSE MeasuresThrough(ends[i - 1]) + 1), MeasuresThrough(ends[i])>>]
+\* stated over a measure index ms (a sequence of stage numbers): the specification's own mstarts on the model; the index the
+\* implementation reports when a recorded run is judged (whether THAT index is right is C07's statement, not C19's)
+MeasuresThroughIn(ms, st) == Cardinality({j \in 1..Len(ms) : ms[j] <= st})
+ConcatPairsIn(ms, ends) == [i \in 1..Len(ends) |-> <<(IF i = 1 THEN 0 ELSE MeasuresThroughIn(ms, ends[i - 1]) + 1), MeasuresThroughIn(ms, ends[i])>>]
+ConcatPairs(ends) == ConcatPairsIn(mstarts, ends)
 \* what exporting from_measure = lo, to_measure = hi covers (from_measure = 0 means "from the start")
 PairFirstStage(lo) == IF lo = 0 THEN 2 ELSE mstarts[lo]
 PairLastStage(hi) == IF hi < Len(mstarts) THEN mstarts[hi + 1] ELSE Len(stages)
